@@ -531,3 +531,48 @@ B("Interval maxDelay may undercut initial", ["C08"], [(IV, "        self.maxDela
 B("IntervalLinear drops the initial term", ["C08"], [(IV, "        self._value = self.initial + (self._k*size)/self.bandwith", "        self._value = (self._k*size)/self.bandwith")], {"C08": ["R-GAP"]})
 B("PUBREL interval built from a constant", ["C08"], [(PS, "            reply.interval = Interval(initial=self._initialT)", "            reply.interval = Interval(initial=1)")], {"C08": ["R-GAP", "R-DELAY"]})
 N("IntervalLinear written with a local", ["C08"], [(IV, "        self._value = self.initial + (self._k*size)/self.bandwith", "        extra = (self._k*size)/self.bandwith\n        self._value = self.initial + extra")])
+
+# ---------------------------------------------------------------- neutral refactors checked against EVERY property
+ALL = ["C%02d" % i for i in range(1, 21)]
+
+
+def rename_everywhere(old, new):
+    """A pseudo-edit: replace an identifier in every file it occurs in (applied by selftest as a special edit)."""
+    return ("*", old, new)
+
+
+N("helper _retryPublish renamed", ALL, [rename_everywhere("_retryPublish", "_transmitPublish")])
+N("helper _purgeSession renamed", ALL, [rename_everywhere("_purgeSession", "_dropSession")])
+N("helper _accumulatePacket and _processPacket renamed", ALL, [rename_everywhere("_accumulatePacket", "_frame"), rename_everywhere("_processPacket", "_dispatch")])
+N("factory aliased to a local in handlePUBACK", ALL,
+  [(PS, "        try:\n             request = self.factory.windowPublish[self.addr][response.msgId]\n        except KeyError as e:",
+    "        factory = self.factory\n        try:\n             request = factory.windowPublish[self.addr][response.msgId]\n        except KeyError as e:")])
+N("loss loops over values()", ALL,
+  [(PS, "        for _, request in self.factory.windowPublish[self.addr].items():\n            if request.alarm is not None:\n                request.alarm.cancel()\n                request.alarm = None\n        for _, request in self.factory.windowPubRelease",
+    "        for request in self.factory.windowPublish[self.addr].values():\n            if request.alarm is not None:\n                request.alarm.cancel()\n                request.alarm = None\n        for _, request in self.factory.windowPubRelease")])
+N("settling of a PUBACK extracted into a helper", ALL,
+  [(PS, "            request.alarm.cancel()\n            request.deferred.callback(request.msgId)\n            del self.factory.windowPublish[self.addr][response.msgId]\n            self._refillPublish(dup=False)",
+    "            self._settlePublish(request, response.msgId)\n            self._refillPublish(dup=False)"),
+   (PS, "    def handlePUBREC(self, response):\n        '''\n        Handle PUBREC control packet received (QoS=2).\n        '''",
+    "    def _settlePublish(self, request, msgId):\n        request.alarm.cancel()\n        request.deferred.callback(request.msgId)\n        del self.factory.windowPublish[self.addr][msgId]\n\n    def handlePUBREC(self, response):\n        '''\n        Handle PUBREC control packet received (QoS=2).\n        '''")])
+N("extra debug logging in the hot paths", ALL,
+  [(BASE, "        self.transport.write(pdu)\n        # Changes state", "        log.debug(\"writing {n} bytes\", n=len(pdu))\n        self.transport.write(pdu)\n        # Changes state"),
+   (PS, "        self.factory.queuePublishTx[self.addr].append(request)\n", "        log.debug(\"queued\")\n        self.factory.queuePublishTx[self.addr].append(request)\n")])
+N("doPublish computes the interval before the identifier", ALL,
+  [(PS, "            request.msgId    = self.factory.makeId()\n            request.deferred = defer.Deferred()\n            request.interval = IntervalLinear(initial=self._initialT, \n                                              bandwith=self._bandwith, \n                                              factor=self._factor)\n",
+    "            request.interval = IntervalLinear(initial=self._initialT, \n                                              bandwith=self._bandwith, \n                                              factor=self._factor)\n            request.msgId    = self.factory.makeId()\n            request.deferred = defer.Deferred()\n")])
+N("CONNACK refusal message looked up with a conditional expression", ALL,
+  [(BASE, "            if response.resultCode < len(MQTT_CONNECT_CODES):\n                msg = MQTT_CONNECT_CODES[response.resultCode]\n            else:\n                msg = \"Connection Refused, reserved return code\"\n",
+    "            msg = MQTT_CONNECT_CODES[response.resultCode] if response.resultCode < len(MQTT_CONNECT_CODES) else \"Connection Refused, reserved return code\"\n")])
+N("pdu masks written in decimal", ALL,
+  [(PDU, "        self.dup    = (packet[0] & 0x08) == 0x08\n        self.qos    = (packet[0] & 0x06) >> 1", "        self.dup    = (packet[0] & 8) == 8\n        self.qos    = (packet[0] >> 1) & 3")])
+
+B("session mode recorded only at CONNACK", ["C11", "C12"],
+  [(BASE, "        self._cleanStart = request.cleanStart\n        self._version    = request.version\n", "        self._version    = request.version\n"),
+   (BASE, "            self.state = self.CONNECTED\n            self.mqttConnectionMade()", "            self.state = self.CONNECTED\n            self._cleanStart = request.cleanStart\n            self.mqttConnectionMade()")],
+  {"C11": ["X-MODE"], "C12": ["Y-MODE"]})
+N("session mode re-recorded at CONNACK as well", ALL,
+  [(BASE, "            self.state = self.CONNECTED\n            self.mqttConnectionMade()", "            self.state = self.CONNECTED\n            self._cleanStart = request.cleanStart\n            self.mqttConnectionMade()")])
+B("clean-loss queue drain stops at the first already-fired entry", ["C11"],
+  [(PS, "            while queue:\n                request = queue.popleft()\n                if not request.deferred.called:\n                    request.deferred.errback(reason)", "            while queue and not queue[0].deferred.called:\n                request = queue.popleft()\n                request.deferred.errback(reason)")],
+  {"C11": ["X-DRAIN"]})
